@@ -9,6 +9,7 @@ import (
 	"verifmc/engine/ev"
 	"verifmc/engine/reg"
 	_ "verifmc/props/all"
+	"verifmc/props/c02"
 )
 
 func main() {
@@ -22,6 +23,12 @@ func main() {
 		out := os.Stdout
 		os.Stdout = os.Stderr
 		bfs.WorkerMain(os.Args[2], os.Stdin, out)
+	case "c02shard":
+		out := os.Stdout
+		os.Stdout = os.Stderr
+		_ = out
+		os.Stdout = out
+		c02.ShardMain(os.Args[2:])
 	case "list":
 		for _, id := range reg.IDs() {
 			fmt.Println(id)
